@@ -526,3 +526,68 @@ theorem accept_invT {hasH : Bool} {evs : List Ev} {s : St} (h : accept hasH evs 
 
 end BookAcc
 end Dfols
+
+namespace Dfols
+namespace BookAcc
+
+/-- every history entry was produced by an evaluation event of the trace -/
+def FromEvents (evs : List Ev) (h : Nat × Nat × Nat × Val) : Prop :=
+  ∃ evalNo nc, Ev.obj h.1 evalNo h.2.1 h.2.2.1 h.2.2.2 nc ∈ evs
+
+theorem step_hist {s s' : St} {e : Ev} (h : step s e = .ok s') :
+    ∀ x ∈ s'.hist, x ∈ s.hist ∨ FromEvents [e] x := by
+  cases e <;> simp only [step] at h
+  case obj i evalNo ptNo xid v ncalls =>
+    cases hmode : s.mode <;> rw [hmode] at h <;> simp only at h
+    case x0 g =>
+      repeat' split at h
+      all_goals (first | (simp at h; done) | skip)
+      all_goals (simp only [Except.ok.injEq] at h; subst h)
+      all_goals (
+        intro x hx
+        simp only [List.mem_cons] at hx
+        rcases hx with hx | hx
+        · right; subst hx; exact ⟨evalNo, ncalls, by simp⟩
+        · left; exact hx)
+    case run =>
+      cases hpend : s.pend <;> rw [hpend] at h <;> simp only at h
+      case none => simp at h
+      case some p =>
+        repeat' split at h
+        all_goals (first | (simp at h; done) | skip)
+        all_goals (simp only [Except.ok.injEq] at h; subst h)
+        all_goals (
+          intro x hx
+          simp only [List.mem_cons] at hx
+          rcases hx with hx | hx
+          · right; subst hx; exact ⟨evalNo, ncalls, by simp⟩
+          · left; exact hx)
+    all_goals simp at h
+  case itp ok =>
+    simp only [Except.ok.injEq] at h; subst h
+    intro x hx; left; split at hx <;> exact hx
+  all_goals (
+    repeat' split at h
+    all_goals (first | (simp at h; done) | skip)
+    all_goals (simp only [Except.ok.injEq] at h; subst h)
+    all_goals (intro x hx; left; exact hx))
+
+theorem foldlM_hist {s s' : St} (evs : List Ev) (h : evs.foldlM step s = .ok s') :
+    ∀ x ∈ s'.hist, x ∈ s.hist ∨ FromEvents evs x := by
+  induction evs generalizing s with
+  | nil => simp only [List.foldlM_nil, pure, Except.pure, Except.ok.injEq] at h; subst h; intro x hx; exact Or.inl hx
+  | cons e evs ih =>
+    simp only [List.foldlM_cons, bind, Except.bind] at h
+    cases hs : step s e with
+    | error m => simp [hs] at h
+    | ok s1 =>
+      rw [hs] at h
+      intro x hx
+      rcases ih h x hx with h1 | ⟨a, b, h1⟩
+      · rcases step_hist hs x h1 with h2 | ⟨a, b, h2⟩
+        · exact Or.inl h2
+        · right; exact ⟨a, b, by simp only [List.mem_singleton] at h2; rw [h2]; exact List.mem_cons_self⟩
+      · right; exact ⟨a, b, List.mem_cons_of_mem _ h1⟩
+
+end BookAcc
+end Dfols
